@@ -7,7 +7,8 @@ RULE = ("Hypothesis-generated operation histories on a real spot session state (
         "active), move price. After every operation the quote balance, every base balance and every position size are "
         "compared with the SpotAccount reference fed from the observed submit/cancel/fill events; an InsufficientBalance "
         "is required exactly when the reference inequality says so (a 1e-9 relative band around equality accepts either). "
-        "A rejected submission ends the history. distinct = digest of the op list + config; non-trivial = the history has a "
+        "A rejected submission ends the history. In addition every generated spot session (session driver, both simulators) is "
+        "replayed into the same reference from its trace and compared at every strategy hook. distinct = digest of the op list + config; non-trivial = the history has a "
         "cancel followed by a later submission on the same side, or a partial sell, or a rejection.")
 ASSUMPTIONS = [
     "balances are compared with 1e-9 relative tolerance (jesse multiplies qty*price in doubles before its decimal bookkeeping)",
@@ -227,7 +228,49 @@ def run_history(cfg, ops):
     return vios, flags, applied
 
 
+def session_replay(spec):
+    """Every spot session of the session driver replayed into the cash-account reference from its trace, compared at every hook."""
+    from vf.drive import session
+    from vf.ref.accounts import SpotAccount, fr
+    r = session.run(spec, obs='light')
+    cfg = spec['cfg']
+    sim = 'fast' if spec.get('fast') else 'step'
+    model = SpotAccount(cfg['balance'], cfg['fee'])
+    vios, flags = [], set()
+    for e in r['trace']:
+        if e['ev'] == 'submit':
+            model.submit(e['ord'], e['sym'], e['side'], e['type'], e['qty'], e['price'])
+        elif e['ev'] == 'cancel' and e['before'] == 'ACTIVE' and e['ord'] in model.resting:
+            model.cancel(e['ord'])
+            flags.add('cancel')
+        elif e['ev'] == 'execute' and e['before'] == 'ACTIVE' and e['ord'] in model.resting:
+            o = model.resting[e['ord']]
+            if o[1] == 'sell':
+                flags.add('sell-fill')
+            model.fill(e['ord'])
+        elif e['ev'] == 'hook' and 'accounts' in e:
+            a = e['accounts']
+            where = f"hook {e['name']} idx={e['idx']} phase={e['phase']}"
+            if not close_enough(fr(a['assets']['USDT']), model.quote):
+                vios.append((f'C04:session:sim={sim}:quote-balance', f"{where}: quote {a['assets']['USDT']!r} vs reference {float(model.quote)!r}"))
+            if a['assets']['USDT'] < -1e-9:
+                vios.append((f'C04:session:sim={sim}:negative-quote', f"{where}: {a['assets']['USDT']!r}"))
+            for sym, p in a['positions'].items():
+                base = a['assets'][sym.split('-')[0]]
+                if not close_enough(fr(base), model.base_of(sym)):
+                    vios.append((f'C04:session:sim={sim}:base-balance', f"{where}: {sym} base {base!r} vs reference {float(model.base_of(sym))!r}"))
+                if p['qty'] != base:
+                    vios.append((f'C04:session:sim={sim}:position-size-not-identical-to-base', f"{where}: {sym} position.qty {p['qty']!r} vs base {base!r}"))
+                if base < -1e-12 or p['qty'] < -1e-12:
+                    vios.append((f'C04:session:sim={sim}:negative-base-or-short', f"{where}: {sym} base {base!r} position {p['qty']!r}"))
+            if vios:
+                break
+    return vios, flags, r
+
+
 def replay(case):
+    if case.get('kind') == 'session':
+        return session_replay(case['spec'])[0]
     return run_history(case['cfg'], [tuple(o) for o in case['ops']])[0]
 
 
@@ -253,5 +296,18 @@ def run_shard(acc, shard, nshards, seed, tier):
         nt = bool(flags & {'submission-after-cancel-on-same-side', 'partial-sell', 'rejection'})
         d = dict(cfg=cfg, ops=applied)
         return dict(key=d, nontrivial=nt, classes=sorted(flags), sample=d if len(applied) < 9 else None, violations=vios, _d=d)
-    runner.hyp_search(acc, strat, chk, 500 if tier == 'quick' else 8000, seed, tier, known=known,
+    runner.hyp_search(acc, strat, lambda c: dict(chk(c), sub='bench-histories'), 500 if tier == 'quick' else 8000, seed, tier, known=known,
                       describe=lambda c: dict(cfg=c[0], ops=[list(o) for o in c[1]]))
+
+    from vf.gen import sessions
+    sess = sessions.session(minutes=(60, 180) if tier == 'quick' else (60, 400), kinds=('spot',), max_data=0, warmup=(False,), align_len=True,
+                            fees=(0.0, 0.001, 0.00075, 0.0075), program=dict(busy=True, oversize=True))
+
+    def chk_s(spec):
+        vios, flags, r = session_replay(spec)
+        nt = 'sell-fill' in flags
+        return dict(key=('s', spec['cfg'], spec['routes'], spec['scripts'], spec['candles'], spec['fast']), nontrivial=nt,
+                    classes=['session:' + f for f in sorted(flags)] + ['session:' + ('fast' if spec['fast'] else 'step')], violations=vios, sub='session-replay',
+                    sample=dict(cfg=spec['cfg'], routes=spec['routes'], fast=spec['fast'], minutes=spec['n'], orders=len(r['orders'])) if nt else None)
+    runner.hyp_search(acc, sess, chk_s, 12 if tier == 'quick' else 800, seed + 11, tier, known=known, shrink_calls=15, max_shrink_sigs=1,
+                      describe=lambda spec: dict(kind='session', spec=spec))
